@@ -86,7 +86,7 @@ class Prov:
         else:
             c = item["callee"]
             name = c.get("rpath") or c.get("path") or "<indirect>"
-            t = ("call", name, tuple(self.op(a, depth + 1) for a in item["args"]), bb, c.get("path"))
+            t = ("call", name, tuple(self.op(a, depth + 1) for a in item["args"]), bb, c.get("path"), item["dest"].get("ty"))
         self.cache[l] = t
         return t
 
